@@ -864,6 +864,25 @@ func (g *Gen) genKind(k string) *Op {
 				}
 			}
 		}
+		if r.Chance(0.08) {
+			// a provider whose shard was already retired by the timeout scan reports it stored after all
+			for _, i := range r.Perm(len(e.Data)) {
+				m, ok := s.Model.Metas[e.Data[i].DataId]
+				if !ok {
+					continue
+				}
+				if o, ok := s.Order.Orders[m.OrderId]; ok {
+					for _, sid := range o.Shards {
+						if sh, ok := s.Order.Shards[sid]; ok && sh.Status == ordertypes.ShardTimeout {
+							if a := w.ByAddr[sh.Sp]; a != nil {
+								e.probe("late_complete_by_timed_out_provider")
+								return &Op{K: "complete", A: a.Idx, D: i, Note: "late"}
+							}
+						}
+					}
+				}
+			}
+		}
 		if len(cs) == 0 {
 			return nil
 		}
